@@ -26,6 +26,11 @@
   triangle.
 
   -- [V] stroked polylines / styled triangles outside the display-scale domain (a vertex beyond +-1024, a stroke wider than 128, a move beyond +-2^30): the guards `PolyNoSat` / `BoxGuard` / `RowsGuard` / `TriGuards` of Props/C07/Joins.lean are decidable per instance but not proved in general there (they are false for coordinates near the `i32` limits): carried by correspondence + oracle only
+
+  -- [V] these theorems are about the integer MODEL: the real code's `i32` products (`dot_product`, `area_doubled`,
+  -- `length_squared`) overflow once coordinates reach a few million (e.g. `thick.polyline 0 0 3 4194304 0 4194314 1000
+  -- 4194330 0 4` panics in `dot_product` with overflow checks), so for the CODE the "moves within +-2^30" apply only to
+  -- moves that keep every coordinate inside C08's checked range (|coordinate| <= 8192): carried by correspondence + oracle only
 -/
 import EG.Lemmas.JoinsBoxDisplayScale
 import EG.Props.C07.Joins
